@@ -416,6 +416,8 @@ C12_PendingPolledAllWithCurrentWaker(t, rq, c, lg) ==
 C12_NoPollAfterCompletion(t, rq, c, lg) ==
   LET F == Flat(lg, 1) IN
     /\ \A i \in 1..Len(F) : F[i].ev.r # "panic"
+    \* (a wrapper written as an `async fn` panics itself, before the leaf can log anything: the round ends in that panic)
+    /\ \A i \in 1..Len(lg) : ~(lg[i].res.k = "panic" /\ lg[i].res.v = "poll after completion")
     /\ \A i \in 1..Len(F), j \in 1..Len(F) :
          (i < j /\ F[i].ev.e \in {"pf", "pi"} /\ F[j].ev.e = F[i].ev.e /\ F[j].ev.id = F[i].ev.id) => F[i].ev.r = "pending"
 
